@@ -157,6 +157,13 @@ impl Prop for C09 {
                 let tree_differs = &crate::adapt::program(&tree) != prog;
                 let stdin_str = String::from_utf8_lossy(stdin).into_owned();
                 let m = model::run(prog, &stdin_str, Scoping::Dynamic, Limits { max_steps: 400, ..Limits::default() });
+                // values whose size explodes in the reference run (strings, self-nested arrays) are outside the
+                // property's "modest resource bounds": the fuel hook bounds steps, not memory
+                if let Err(model::Stop::Budget(w)) = &m.result {
+                    if w.contains("size") {
+                        return Outcome::discard("resource_bound:size_in_reference_run");
+                    }
+                }
                 let valid_utf8 = std::str::from_utf8(stdin).is_ok();
                 let (fuel, model_terminated) = if m.judged() && valid_utf8 && !tree_differs { (10 * m.steps + 100, true) } else { (3000, false) };
                 let mut o = run_tree(&tree, stdin, RLimits { exec_fuel: Some(fuel), alloc_cap: Some(4_000_000) }, &src, model_terminated);
